@@ -97,7 +97,11 @@ class IsoTpStateMachine:
 
             expected_segment_idx = (self._telegram_last_rx_fragment_idx[telegram_idx] + 1) % 16
             telegram_data = self._telegram_data[telegram_idx]
-            assert isinstance(telegram_data, bytearray)
+            if telegram_data is None:
+                # consecutive frame without a transfer in progress,
+                # e.g. because we joined in the middle of it. Ignore it.
+                self.on_consecutive_frame(telegram_idx, rx_segment_idx, data[1:])
+                return
 
             n = -1
             if expected_segment_idx == rx_segment_idx:
